@@ -303,14 +303,68 @@ def fold_cases():
     return out
 
 
+def null_cases():
+    """the literal null as an operand of every operator kind at every position (three-valued logic,
+    null propagation, the syntactic null test, open range bounds), alone and one level down"""
+    N = ("lit", "null", None)
+    out = []
+    for k in KINDS:
+        for pos in positions(k):
+            t = node(k, pos, N, Leaves([("col", 0), ("col", 1), ("col", 2)]))
+            out.append(t)
+            # ... and as the operand of a comparison / arithmetic node that is itself an operand
+            for inner in (("bin", "Gt", ("bin", "Add", ("col", 1), N), ("lit", "int", 2)), ("bin", "Mul", N, ("col", 1))):
+                out.append(node(k, pos, inner, Leaves([("col", 0), ("col", 2), ("col", 1)])))
+    return out
+
+
+LET_COL = ("col", 3)      # the derived column `d`
+
+
+def let_cases():
+    """`derive d = E1 | select {v = E2}` with d at every operand position of every operator kind: the SQL
+    generator inlines E1 where d is referenced (another route by which an expression -- or a folded,
+    possibly negative, literal -- becomes an operand)"""
+    I = lambda n: ("lit", "int", n)
+    a, b, c = ("col", 0), ("col", 1), ("col", 2)
+    defs = [("un", "Neg", I(5)), ("un", "Neg", ("lit", "float", (5, 1))), I(3), ("un", "Neg", a), ("bin", "Add", a, I(1)),
+            ("bin", "Mod", a, b), ("bin", "Lt", a, b), ("bin", "Coalesce", a, I(2)), ("in", a, I(1), I(5)),
+            ("bin", "DivFloat", a, b), ("bin", "Mul", a, b), ("bin", "Eq", a, b)]
+    out = []
+    for e1 in defs:
+        for k in KINDS:
+            for pos in positions(k):
+                e2 = node(k, pos, LET_COL, Leaves([("col", 2), ("col", 1), ("lit", "int", 2), ("lit", "int", 3)]))
+                out.append((e1, e2))
+        out.append((e1, ("un", "Neg", ("un", "Pos", LET_COL))))
+    return out
+
+
+def subst_col(t, i, by):
+    k = t[0]
+    if k == "col":
+        return by if t[1] == i else t
+    if k == "lit":
+        return t
+    if k == "bin":
+        return ("bin", t[1], subst_col(t[2], i, by), subst_col(t[3], i, by))
+    if k == "un":
+        return ("un", t[1], subst_col(t[2], i, by))
+    if k == "case":
+        return ("case", [(subst_col(c, i, by), subst_col(v, i, by)) for c, v in t[1]])
+    return ("in", subst_col(t[1], i, by), None if t[2] is None else subst_col(t[2], i, by), None if t[3] is None else subst_col(t[3], i, by))
+
+
 def rand_leaf(r, boolish=False):
     x = r.random()
     if x < 0.62:
         return ("col", r.randrange(3))
     if x < 0.80:
         return ("lit", "int", r.choice([0, 1, 2, 3, 5, 7]))
-    if x < 0.90:
+    if x < 0.89:
         return ("lit", "float", r.choice([(1, 1), (5, 1), (1, 2), (3, 1)]))
+    if x < 0.93:
+        return ("lit", "null", None)
     return ("lit", "bool", r.random() < 0.5)
 
 
